@@ -384,4 +384,77 @@ example : ∀ op ∈ [Op.request 0 { preload := false, release := false } (.coun
 example : ¬ NoEarlyOp (.request 0 { preload := false, release := true } .off []) := by
   simp [NoEarlyOp, NoEarlyCfg]
 
+/-! ### requests rejected on the client side after the checkout (`ReqCfg.badHeader`)
+
+`conn.request()` with a header value that `putheader` cannot encode raises between `putrequest()` and
+`endheaders()`.  The headline theorems above quantify over every `ReqCfg`, so they cover histories that contain such
+requests; the statements below say what the rejected request itself does. -/
+
+/-- **Nothing of a rejected request is sent.**  `conn.request()` of a request whose header block cannot be encoded
+(`connRequestH … true`): no socket is created or written to, nothing is logged (no `connect`, no `send`), no response
+object comes into being, and the outcome is an exception that `_make_request` does not swallow — in every state. -/
+theorem C03_rejected_request_sends_nothing (s : State) (c rid : Nat) (a : Attempt) :
+    (connRequestH s c rid a true).1.socks = s.socks ∧ (connRequestH s c rid a true).1.log = s.log ∧
+    (connRequestH s c rid a true).1.resps = s.resps ∧
+    ∃ e, (connRequestH s c rid a true).2 = .error e ∧ sendSwallowed e = false := by
+  have hf : (forgetClosedPending s c).socks = s.socks ∧ (forgetClosedPending s c).log = s.log ∧
+      (forgetClosedPending s c).resps = s.resps := by
+    unfold forgetClosedPending
+    repeat' split
+    all_goals exact ⟨rfl, rfl, rfl⟩
+  obtain ⟨f1, f2, f3⟩ := hf
+  show (connReject s c).1.socks = s.socks ∧ (connReject s c).1.log = s.log ∧ (connReject s c).1.resps = s.resps ∧
+    ∃ e, (connReject s c).2 = .error e ∧ sendSwallowed e = false
+  unfold connReject
+  generalize forgetClosedPending s c = t at f1 f2 f3
+  dsimp only
+  split
+  · exact ⟨f1, f2, f3, _, rfl, by decide⟩
+  · split
+    · exact ⟨f1, f2, f3, _, rfl, by decide⟩
+    · exact ⟨f1, f2, f3, _, rfl, by decide⟩
+
+example : (connRequestH (getConn (init 1 true)).1 0 7 {} true).2 = .error (exc Gen.cValueError) := rfl
+
+/-- **A rejected request never yields a response** — from any state, for any server script, retry budget and pool
+configuration (a retry of `CannotSendRequest` on a busy connection object meets the same header again): the caller
+gets an exception, so no byte of anybody's reply is delivered for it. -/
+theorem C03_rejected_request_yields_no_response (s : State) (rid : Nat) (rc : ReqCfg) (retries : Retry)
+    (script : List Attempt) (hb : rc.badHeader = true) (r : Nat) :
+    (request s rid rc retries script).2 ≠ .resp r :=
+  request_rejected rid script s rc retries hb r
+
+example : ({ badHeader := true } : ReqCfg).badHeader = true ∧
+    (match (step (init 1 true) (.request 0 { badHeader := true } (.count 2) [{}, {}])).2 with
+      | .result (.raised e) => e.cls == Gen.cValueError
+      | _ => false) = true := by decide
+
+/-- **… and the connection object it had checked out is thrown away.**  With a valid `timeout`, a successful checkout
+of an idle connection object `c`: whatever the retry budget and the rest of the script, `urlopen` runs `discard`
+(`conn.close()`, `_put_conn(None)`) on the state in which nothing was sent, and raises `putheader`'s `ValueError`
+(or `FullPoolError` if `_put_conn` does).  The connection object — whose output buffer holds the request line of the
+rejected request — never returns to the queue, so nothing of the rejected request can precede a later one. -/
+theorem C03_rejected_request_discards_connection (s s1 : State) (rid c : Nat) (rc : ReqCfg) (retries : Retry)
+    (a : Attempt) (rest : List Attempt) (cn : Conn) (hb : rc.badHeader = true) (hp : preflight rc a = none)
+    (hg : getConnT s rc.badPoolTimeout = (s1, .ok c))
+    (hc : (forgetClosedPending s1 c).conns[c]? = some cn) (hi : cn.http = .idle) :
+    request s rid rc retries (a :: rest) =
+      match discard (connReject s1 c).1 (some c) with
+      | (s2, some e') => (s2, .raised e')
+      | (s2, none) => (s2, .raised (exc Gen.cValueError)) := by
+  have hm := makeRequest_rejected_eq s1 c rid a rc hb _ (connReject_idle s1 c cn hc hi) (by decide)
+  unfold request
+  rw [hp]
+  dsimp only
+  rw [hg]
+  dsimp only
+  rw [hm]
+  dsimp only
+  rw [show (exc Gen.cValueError).cls = Gen.cValueError from rfl, handleError_valueError]
+  rfl
+
+example : let s := run (init 1 true) [.request 0 {} .off [{ head := some { status := 200, close := false, cl := some 0, location := false, retryAfter := false } }]]
+    let x := step { s with log := [] } (.request 1 { badHeader := true } (.count 2) [{}, {}])
+    s.queue = [some 0] ∧ x.1.queue = [none] ∧ x.1.log = [.close 0, .put none] := by decide
+
 end U3.Props
